@@ -568,11 +568,12 @@ Theorem C15_no_loss_direct :
 Proof. exact direct_no_loss. Qed.
 Print Assumptions C15_no_loss_direct.
 
-(* full statement: P_C15_no_loss of the model's own execute_for.  NOT proved as one theorem: C15_call_no_loss
-   (handler -> DTOs of the call) and C15_no_loss_direct / _indirect (DTOs of the call -> session of the loop) are;
-   the last step, mk_peer reading the Peer fields from the session's DTOs (conv_direct / conv_indirect) and the
-   bookkeeping of e_table / e_match against lookup_direct, is only checked on the real executor by the
-   correspondence run (Spec.P_C15_seq.P_C15_no_loss on every generated registry). *)
+(* full statement: P_C15_no_loss of the model's own execute_for, for ANY schemas and ANY case.  In this unguarded
+   form it is false (C15_no_loss_unguarded_refuted at the end of this file: a table row no registered rule ever
+   calls).  It is PROVED on its domain -- the DTO attributes a Peer is read from are ForbidChange / Unite fields,
+   every table row the predicate speaks about is the answer of a call execute_for really makes -- as C15_no_loss
+   at the end of this file (last step through conv_direct / conv_indirect / mk_peer and the bookkeeping of
+   e_table / e_match against lookup_direct: Proofs/MeshNoLossExecProofs.v). *)
 Definition C15_no_loss_statement : Prop :=
   forall sd si svl svp sp c,
     P_C15_no_loss c (map (fun d => (d, model_exec sd si svl svp sp c d)) (e_devices c)) = true.
@@ -614,3 +615,338 @@ Example C15_example_no_loss_loop :
   | inl _ => False
   end.
 Proof. vm_compute. repeat split; repeat constructor. Qed.
+
+(* C15_no_loss_statement on its domain: "every handler call of a matching rule shows on both ends", for the *)
+(* model's own execute_for as a whole (Spec/P_C15_noloss_wf.v, Proofs/MeshNoLossExecProofs.v)               *)
+From Annet Require Import Spec.P_C15_noloss_wf Proofs.MeshNoLossExecProofs.
+
+(* For every registry, storage and handler table: in the outcome of execute_for(d), for every device d, every
+   handler call the run makes for a pair (d, o) has a Peer towards o, at the address the call gave o, that carries
+   everything the call wrote -- on d's side or the session object: policies, update_source and every PeerOptions
+   field; on o's side or the session object: families (as a subset), description, group, vrf, AS number --
+   whatever other calls were merged into the same (fqdn, addr, vrf) session.
+   Premises: Pair.local / Pair.connected are merged by Merge() of a class dp; in the DTO classes of direct and
+   indirect peers and in dp the attributes a Peer is read from are ForbidChange fields and families is Unite
+   (noloss_schema; true of the real classes: evaluated by the check on the schemas read from them);
+   the rows of the handler table the predicate speaks about are answers of calls the run makes and write
+   well-formed objects (noloss_case). *)
+Theorem C15_no_loss :
+  forall sd si svl svp sp dp c,
+    lookup "local" sp = Some (MMerge dp) -> lookup "connected" sp = Some (MMerge dp) ->
+    noloss_schema (e_opt_fields c) sd = true -> noloss_schema (e_opt_fields c) si = true ->
+    noloss_schema (e_opt_fields c) dp = true ->
+    noloss_case sd si c ->
+    P_C15_no_loss c (map (fun d => (d, model_exec sd si svl svp sp c d)) (e_devices c)) = true.
+Proof. exact exec_no_loss. Qed.
+Print Assumptions C15_no_loss.
+
+(* non-vacuity: a1 -- b1 joined by one link; a direct rule (0) and two indirect rules (1, 2) whose calls for
+   (a1, b1) give the same peer address, so the loop merges them into one session; all guards hold, both runs
+   succeed, a1 gets a direct and a (merged) indirect peer *)
+Definition nx_dto : schema :=
+  [("addr", MForbidChange); ("asnum", MForbidChange); ("description", MForbidChange); ("group_name", MForbidChange);
+   ("vrf", MForbidChange); ("import_policy", MForbidChange); ("export_policy", MForbidChange);
+   ("update_source", MForbidChange); ("multipath", MForbidChange); ("families", MUnite); ("ifname", MForbidChange)].
+Definition nx_pair : schema :=
+  [("local", MMerge nx_dto); ("connected", MMerge nx_dto); ("device", MUseLast); ("ports", MForbidChange)].
+Definition nx_fam (s : string) : string * value := ("families", VSet [AStr s]).
+Definition nx_case : ecase :=
+  ECase ["a1"; "b1"]
+        [("a1", [("e1", "b1", "e7")]); ("b1", [("e7", "a1", "e1")])]
+        [Rule 0 United] [Rule 1 United; Rule 2 United] []
+        [(0, "a1", "b1"); (1, "a1", "b1"); (2, "a1", "b1")] []
+        [((0, "a1", "b1", ["e1"]),
+          ([("addr", VAtom (AStr "10.0.0.1/31")); ("asnum", VAtom (AInt 65001)); ("import_policy", VAtom (AStr "IMP"))],
+           [("addr", VAtom (AStr "10.0.0.0/31")); ("asnum", VAtom (AInt 65002))],
+           [nx_fam "ipv4_unicast"]));
+         ((1, "a1", "b1", []),
+          ([("addr", VAtom (AStr "172.16.0.1/32")); ("asnum", VAtom (AInt 65001)); ("multipath", VAtom (ABool true))],
+           [("addr", VAtom (AStr "172.16.0.2/32")); ("asnum", VAtom (AInt 65002)); ("description", VAtom (AStr "lo"))],
+           [nx_fam "ipv4_unicast"]));
+         ((2, "a1", "b1", []),
+          ([("addr", VAtom (AStr "172.16.0.1/32")); ("asnum", VAtom (AInt 65001))],
+           [("addr", VAtom (AStr "172.16.0.2/32")); ("asnum", VAtom (AInt 65002))],
+           [nx_fam "ipv6_unicast"; ("group_name", VAtom (AStr "G"))]))]
+        []
+        ["local_as"; "multipath"].
+
+Example C15_example_no_loss_guards :
+  lookup "local" nx_pair = Some (MMerge nx_dto) /\ lookup "connected" nx_pair = Some (MMerge nx_dto) /\
+  noloss_schema (e_opt_fields nx_case) nx_dto = true /\
+  noloss_case nx_dto nx_dto nx_case /\
+  match model_exec nx_dto nx_dto [] [] nx_pair nx_case "a1", model_exec nx_dto nx_dto [] [] nx_pair nx_case "b1" with
+  | EOk pa _, EOk pb _ =>
+    map (fun p => (get_str "hostname" p, get_str "addr" p, get_val "families" p, peer_opt "multipath" p)) pa =
+      [("b1", "10.0.0.0", VSet [AStr "ipv4_unicast"], None);
+       ("b1", "172.16.0.2", VSet [AStr "ipv4_unicast"; AStr "ipv6_unicast"], Some (VAtom (ABool true)))] /\
+    List.length pb = 2
+  | _, _ => False
+  end.
+Proof.
+  split; [reflexivity|]. split; [reflexivity|]. split; [vm_compute; reflexivity|]. split.
+  - intros d e Hd He.
+    destruct Hd as [Hd|[Hd|[]]]; subst d; destruct He as [He|[He|[He|[]]]]; subst e; cbn [fst snd];
+      intros _ _ _.
+    + left. split; [|vm_compute; auto]. exists (Rule 0 United), [("e1", "e7")]. vm_compute. auto 10.
+    + right. split; [|vm_compute; auto]. exists (Rule 1 United). vm_compute. auto 10.
+    + right. split; [|vm_compute; auto]. exists (Rule 2 United). vm_compute. auto 10.
+    + left. split; [|vm_compute; auto]. exists (Rule 0 United), [("e7", "e1")]. vm_compute. auto 10.
+    + right. split; [|vm_compute; auto]. exists (Rule 1 United). vm_compute. auto 10.
+    + right. split; [|vm_compute; auto]. exists (Rule 2 United). vm_compute. auto 10.
+  - vm_compute. split; reflexivity.
+Qed.
+
+(* the unguarded Definition above is not a theorem: a table row whose rule id no registered rule carries is never
+   called, so nothing of it can show (the check builds its tables from the rules it registers: such a row does not
+   occur there; on the real executor nothing corresponds to it) *)
+Definition rx_nl_case : ecase :=
+  ECase ["a1"; "b1"] [] [] [] [] [(0, "a1", "b1")] []
+        [((0, "a1", "b1", []), ([], [("addr", VAtom (AStr "10.0.0.2/32"))], []))] [] [].
+
+Theorem C15_no_loss_unguarded_refuted : ~ C15_no_loss_statement.
+Proof.
+  intro H. specialize (H [] [] [] [] [] rx_nl_case). vm_compute in H. discriminate.
+Qed.
+Print Assumptions C15_no_loss_unguarded_refuted.
+
+(* ====================================================================================================== *)
+(* C15_handler_order lifted to the executor: permuting rule registration                                    *)
+
+(* "for all permutations of handler registration: execute_for result equal (peers and assigned addresses as
+   multisets) or an error in all" -- for the executor AS A WHOLE this is NOT a theorem, of the model and of the real
+   MeshExecutor (replayed: known/C15.json, harness order probe): the indirect sessions of one neighbour are
+   converted in rule order, a session with `svi` creates its interface on the way and a session with a plain
+   `ifname` looks its interface up at that moment. *)
+Definition C15_exec_order_statement : Prop :=
+  forall dmatches dhandler imatches ihandler vmatches vhandler connections
+         sch_direct sch_indirect sch_vlocal sch_vpeer sch_pair opt_fields nm
+         drules drules' irules irules' vrules vrules' device nbs all d0,
+    Permutation drules drules' -> Permutation irules irules' -> Permutation vrules vrules' ->
+    match execute_for dmatches dhandler imatches ihandler vmatches vhandler connections
+                      sch_direct sch_indirect sch_vlocal sch_vpeer sch_pair opt_fields nm
+                      drules irules vrules device nbs all d0,
+          execute_for dmatches dhandler imatches ihandler vmatches vhandler connections
+                      sch_direct sch_indirect sch_vlocal sch_vpeer sch_pair opt_fields nm
+                      drules' irules' vrules' device nbs all d0 with
+    | inl _, inl _ => True
+    | inr (p, d), inr (p', d') => peers_same p p' = true /\ mset_eqb logrec_eqb (d_log d) (d_log d') = true
+    | _, _ => False
+    end.
+
+Definition ox_dto : schema :=
+  [("addr", MForbidChange); ("asnum", MForbidChange); ("svi", MForbidChange); ("ifname", MForbidChange)].
+Definition ox_pair : schema := [("local", MMerge ox_dto); ("connected", MMerge ox_dto); ("ports", MForbidChange)].
+Definition ox_matches (_ : nat) (l r : string) : bool := String.eqb l "a1" && String.eqb r "b1".
+Definition ox_handler (id : nat) (_ _ : string) (_ : list string) : entries * entries * entries :=
+  if Nat.eqb id 0
+  then ([("addr", VAtom (AStr "10.0.0.1/32")); ("asnum", VAtom (AInt 65001)); ("svi", VAtom (AInt 5))],
+        [("addr", VAtom (AStr "10.0.0.2/32")); ("asnum", VAtom (AInt 65002))], [])
+  else ([("addr", VAtom (AStr "10.0.1.1/32")); ("asnum", VAtom (AInt 65001)); ("ifname", VAtom (AStr "Vlan5"))],
+        [("addr", VAtom (AStr "10.0.1.2/32")); ("asnum", VAtom (AInt 65002))], []).
+Definition ox_run (irules : list rule) : fail + (list entries * dev) :=
+  execute_for (fun _ _ _ => false) ox_handler ox_matches ox_handler (fun _ _ => false)
+              (fun _ _ _ => ([], [], [])) (fun _ _ => []) ox_dto ox_dto [] [] ox_pair [] stub_naming
+              [] irules [] "a1" [] ["a1"; "b1"] (Dev ["lo0"] []).
+
+(* registered (0, 1) the run succeeds with both sessions on Vlan5; registered (1, 0) it is a ValueError *)
+Example C15_exec_order_witness :
+  (exists p1 p2,
+     ox_run [Rule 0 United; Rule 1 United] =
+       inr ([p1; p2], Dev ["lo0"; "Vlan5"] [("Vlan5", "10.0.0.1/32", None); ("Vlan5", "10.0.1.1/32", None)]) /\
+     lookup "interface" p1 = Some (VAtom (AStr "Vlan5")) /\ lookup "interface" p2 = Some (VAtom (AStr "Vlan5"))) /\
+  ox_run [Rule 1 United; Rule 0 United] = inl FValue.
+Proof. split; [eexists; eexists; split; [vm_compute; reflexivity|split; reflexivity]|vm_compute; reflexivity]. Qed.
+
+Theorem C15_exec_order_refuted : ~ C15_exec_order_statement.
+Proof.
+  intro H.
+  specialize (H (fun _ _ _ => false) ox_handler ox_matches ox_handler (fun _ _ => false)
+                (fun _ _ _ => ([], [], [])) (fun _ _ => []) ox_dto ox_dto [] [] ox_pair [] stub_naming
+                [] [] [Rule 0 United; Rule 1 United] [Rule 1 United; Rule 0 United] [] [] "a1" [] ["a1"; "b1"]
+                (Dev ["lo0"] []) (Permutation_refl _) (perm_swap _ _ _) (Permutation_refl _)).
+  vm_compute in H. exact H.
+Qed.
+Print Assumptions C15_exec_order_refuted.
+
+(* ---- what IS invariant under permutation of rule registration (Proofs/MeshOrderProofs.v) ----------------- *)
+From Annet Require Import Proofs.MeshOrderProofs.
+
+(* The keyed rule loops.  Permuting the registered rules, _execute_indirect / _execute_direct fail in both orders or
+   return the same sessions: the same keys, and under each key pairs that are equal as finite maps, sets by
+   membership, Concat lists as multisets (sessions_same).  The guards are stated on the Pair schema minus a field f
+   the loops never set -- f = "device" for the real class Pair, whose `device : UseLast` makes order_free false
+   (C15_example_handler_order_loops); handler_wf: what handlers write is well-formed for the DTO class;
+   addr / vrf (the session key) are not nested fields. *)
+Theorem C15_handler_order_indirect :
+  forall f imatches ihandler dto sch_pair rules rules' device all,
+    order_free (MMerge (drop_field f sch_pair)) = true ->
+    nodupb (keys (drop_field f sch_pair)) = true ->
+    lookup "local" (drop_field f sch_pair) = Some (MMerge dto) ->
+    lookup "connected" (drop_field f sch_pair) = Some (MMerge dto) ->
+    handler_wf dto ihandler ->
+    (forall m, lookup "addr" dto = Some m -> scalar m = true) ->
+    (forall m, lookup "vrf" dto = Some m -> scalar m = true) ->
+    Permutation rules rules' ->
+    match execute_indirect imatches ihandler dto sch_pair rules device all,
+          execute_indirect imatches ihandler dto sch_pair rules' device all with
+    | inl _, inl _ => True
+    | inr a, inr b => sessions_same sch_pair a b
+    | _, _ => False
+    end.
+Proof. exact execute_indirect_perm_unset_field. Qed.
+Print Assumptions C15_handler_order_indirect.
+
+Theorem C15_handler_order_direct :
+  forall f matches handler connections dto sch_pair rules rules' device nbs,
+    order_free (MMerge (drop_field f sch_pair)) = true ->
+    nodupb (keys (drop_field f sch_pair)) = true ->
+    lookup "local" (drop_field f sch_pair) = Some (MMerge dto) ->
+    lookup "connected" (drop_field f sch_pair) = Some (MMerge dto) ->
+    lookup "ports" (drop_field f sch_pair) = Some MForbidChange ->
+    handler_wf dto handler ->
+    (forall m, lookup "addr" dto = Some m -> scalar m = true) ->
+    (forall m, lookup "vrf" dto = Some m -> scalar m = true) ->
+    Permutation rules rules' ->
+    match execute_direct matches handler connections dto sch_pair rules device nbs,
+          execute_direct matches handler connections dto sch_pair rules' device nbs with
+    | inl _, inl _ => True
+    | inr a, inr b => sessions_same sch_pair a b
+    | _, _ => False
+    end.
+Proof. exact execute_direct_perm_unset_field. Qed.
+Print Assumptions C15_handler_order_direct.
+
+(* _execute_virtual merges nothing: the same error, or the same pairs in another order; no guard *)
+Theorem C15_handler_order_virtual :
+  forall vmatches vhandler sch_vlocal sch_vpeer vrules vrules' device,
+    Permutation vrules vrules' ->
+    match execute_virtual vmatches vhandler sch_vlocal sch_vpeer vrules device,
+          execute_virtual vmatches vhandler sch_vlocal sch_vpeer vrules' device with
+    | inl e, inl e' => e = e'
+    | inr a, inr b => Permutation a b
+    | _, _ => False
+    end.
+Proof. exact execute_virtual_perm. Qed.
+Print Assumptions C15_handler_order_virtual.
+
+(* The three conversion loops of execute_for (interface changes + to_bgp_peer, threading the device) on the same
+   sessions in any order: both fail, or the same peers (Permutation), the same interfaces (as a set) and the same
+   add_addr records (Permutation) -- under the guard that excludes C15_exec_order_refuted: an indirect session that
+   selects a plain `ifname` names an interface the device has BEFORE the run (plain_ifname_known). *)
+Theorem C15_handler_order_conv :
+  forall connections opt_fields nm device dpairs dpairs' vpairs vpairs' ipairs ipairs' d0,
+    Permutation dpairs dpairs' -> Permutation vpairs vpairs' -> Permutation ipairs ipairs' ->
+    Forall (plain_ifname_known (d_ifs d0)) ipairs ->
+    conv_same (conv_all connections opt_fields nm device dpairs vpairs ipairs d0)
+              (conv_all connections opt_fields nm device dpairs' vpairs' ipairs' d0).
+Proof. exact conv_all_perm. Qed.
+Print Assumptions C15_handler_order_conv.
+
+(* execute_for as a whole, partial: (1) whenever the rule loops of two runs return exactly the same sessions in any
+   order; (2) hence for every permutation of the VIRTUAL rules.  The full claim (all three rule lists permuted,
+   sessions equal only up to sessions_same) is C15_handler_order_exec below. *)
+Theorem C15_handler_order_exec_partial :
+  forall dmatches dhandler imatches ihandler vmatches vhandler connections
+         sch_direct sch_indirect sch_vlocal sch_vpeer sch_pair opt_fields nm
+         drules drules' irules irules' vrules vrules' device nbs all d0 dp dp' vp vp' ip ip',
+    execute_direct dmatches dhandler connections sch_direct sch_pair drules device nbs = inr dp ->
+    execute_direct dmatches dhandler connections sch_direct sch_pair drules' device nbs = inr dp' ->
+    execute_virtual vmatches vhandler sch_vlocal sch_vpeer vrules device = inr vp ->
+    execute_virtual vmatches vhandler sch_vlocal sch_vpeer vrules' device = inr vp' ->
+    execute_indirect imatches ihandler sch_indirect sch_pair irules device all = inr ip ->
+    execute_indirect imatches ihandler sch_indirect sch_pair irules' device all = inr ip' ->
+    Permutation dp dp' -> Permutation vp vp' -> Permutation ip ip' ->
+    Forall (plain_ifname_known (d_ifs d0)) ip ->
+    conv_same
+      (execute_for dmatches dhandler imatches ihandler vmatches vhandler connections sch_direct sch_indirect
+                   sch_vlocal sch_vpeer sch_pair opt_fields nm drules irules vrules device nbs all d0)
+      (execute_for dmatches dhandler imatches ihandler vmatches vhandler connections sch_direct sch_indirect
+                   sch_vlocal sch_vpeer sch_pair opt_fields nm drules' irules' vrules' device nbs all d0).
+Proof. exact execute_for_perm_exact_partial. Qed.
+Print Assumptions C15_handler_order_exec_partial.
+
+Theorem C15_handler_order_exec_virtual_partial :
+  forall dmatches dhandler imatches ihandler vmatches vhandler connections
+         sch_direct sch_indirect sch_vlocal sch_vpeer sch_pair opt_fields nm
+         drules irules vrules vrules' device nbs all d0,
+    Permutation vrules vrules' ->
+    (forall ip, execute_indirect imatches ihandler sch_indirect sch_pair irules device all = inr ip ->
+                Forall (plain_ifname_known (d_ifs d0)) ip) ->
+    conv_same
+      (execute_for dmatches dhandler imatches ihandler vmatches vhandler connections sch_direct sch_indirect
+                   sch_vlocal sch_vpeer sch_pair opt_fields nm drules irules vrules device nbs all d0)
+      (execute_for dmatches dhandler imatches ihandler vmatches vhandler connections sch_direct sch_indirect
+                   sch_vlocal sch_vpeer sch_pair opt_fields nm drules irules vrules' device nbs all d0).
+Proof. exact execute_for_vrules_perm_partial. Qed.
+Print Assumptions C15_handler_order_exec_virtual_partial.
+
+(* non-vacuity (proved in Proofs/MeshOrderProofs.v on the mo_* registry): the guards of the loop theorems hold for a
+   Pair schema of the real shape (device : UseLast) with f = "device", two rules in both orders return different
+   lists (Concat order, set order) related by sessions_same; virtual rules in both orders; the conv guard with one
+   session creating SVI 5 and one naming lo0 *)
+Example C15_example_handler_order_loops := execute_perm_unset_field_example.
+Example C15_example_handler_order_indirect := execute_indirect_perm_example.
+Example C15_example_handler_order_direct := execute_direct_perm_example.
+Example C15_example_handler_order_error := execute_indirect_perm_example_error.
+Example C15_example_handler_order_virtual := execute_virtual_perm_example.
+Example C15_example_handler_order_conv := conv_indirect_perm_example.
+
+(* the case guard as a boolean (Spec/P_C15_noloss_wf.noloss_case_b: the row is the FIRST row case_handler finds for
+   the ports of a port group of a registered rule): the check evaluates it on every generated registry and reports
+   how many are inside the domain of C15_no_loss (coverage: noloss_domain) *)
+Theorem C15_no_loss_b :
+  forall sd si svl svp sp dp c,
+    lookup "local" sp = Some (MMerge dp) -> lookup "connected" sp = Some (MMerge dp) ->
+    noloss_schema (e_opt_fields c) sd = true -> noloss_schema (e_opt_fields c) si = true ->
+    noloss_schema (e_opt_fields c) dp = true ->
+    noloss_case_b sd si c = true ->
+    P_C15_no_loss c (map (fun d => (d, model_exec sd si svl svp sp c d)) (e_devices c)) = true.
+Proof.
+  intros sd si svl svp sp dp c H1 H2 H3 H4 H5 H6.
+  apply (exec_no_loss sd si svl svp sp dp c H1 H2 H3 H4 H5). apply noloss_case_b_sound. exact H6.
+Qed.
+Print Assumptions C15_no_loss_b.
+
+Example C15_example_no_loss_b : noloss_case_b nx_dto nx_dto nx_case = true.
+Proof. vm_compute. reflexivity. Qed.
+
+(* ---- execute_for AS A WHOLE, all three rule lists permuted (Proofs/MeshOrderExecProofs.v) ------------------ *)
+From Annet Require Import Proofs.MeshOrderExecProofs.
+
+(* "for all permutations of handler registration: execute_for result equal, or an error in all" -- C15_exec_order_statement
+   with the guards under which it IS a theorem: both runs raise, or both succeed with the same peers (peers_same: as
+   finite maps, sets by membership) and the same add_addr records (as a multiset).
+   Guards: the Pair schema minus `device` is order free, with local / connected Merge() of one flat DTO class (every
+   field ForbidChange or Unite -- true of the shipped peer DTOs) and ports a ForbidChange field; the virtual DTO
+   classes are flat; handlers write well-formed objects; and the guard that excludes C15_exec_order_refuted: an
+   indirect session that selects a plain `ifname` names an interface the device has before the run. *)
+Theorem C15_handler_order_exec :
+  forall dmatches dhandler imatches ihandler vmatches vhandler connections dto sch_vlocal sch_vpeer sch_pair
+         opt_fields nm drules drules' irules irules' vrules vrules' device nbs all d0,
+    order_free (MMerge (drop_field "device" sch_pair)) = true ->
+    nodupb (keys (drop_field "device" sch_pair)) = true ->
+    lookup "local" (drop_field "device" sch_pair) = Some (MMerge dto) ->
+    lookup "connected" (drop_field "device" sch_pair) = Some (MMerge dto) ->
+    lookup "ports" (drop_field "device" sch_pair) = Some MForbidChange ->
+    flat_schema dto = true ->
+    handler_wf dto dhandler -> handler_wf dto ihandler ->
+    flat_schema sch_vlocal = true -> flat_schema sch_vpeer = true ->
+    vhandler_wf sch_vlocal sch_vpeer vhandler ->
+    Permutation drules drules' -> Permutation irules irules' -> Permutation vrules vrules' ->
+    (forall ip, execute_indirect imatches ihandler dto sch_pair irules device all = inr ip ->
+                Forall (plain_ifname_known (d_ifs d0)) ip) ->
+    match execute_for dmatches dhandler imatches ihandler vmatches vhandler connections
+                      dto dto sch_vlocal sch_vpeer sch_pair opt_fields nm drules irules vrules device nbs all d0,
+          execute_for dmatches dhandler imatches ihandler vmatches vhandler connections
+                      dto dto sch_vlocal sch_vpeer sch_pair opt_fields nm drules' irules' vrules' device nbs all d0 with
+    | inl _, inl _ => True
+    | inr (ps, d), inr (ps', d') => peers_same ps ps' = true /\ mset_eqb logrec_eqb (d_log d) (d_log d') = true
+    | _, _ => False
+    end.
+Proof. exact execute_for_perm_flat. Qed.
+Print Assumptions C15_handler_order_exec.
+
+(* non-vacuity: a Pair schema of the real shape (device : UseLast), a flat DTO, direct + indirect + virtual rules all
+   registered in the other order: every guard holds, both runs succeed with 7 peers, the peer lists are not even a
+   permutation of each other (set order of families) and are related as the theorem says *)
+Example C15_example_handler_order_exec := execute_for_perm_flat_example.
